@@ -14,7 +14,7 @@ ID = "C09"
 LEVEL = "model_checking"
 LEVEL_TEXT = ("Explicit enumeration of macro bodies (every ordered selection of <=3 of 8 statement kinds: .db p, .dw q, lda.w p, local "
               "label + reference, nested call, width-inferred lda p, .if over a parameter, nested calls from a block / loop inside the body) x every pair of argument kinds (literal, := constant, backward "
-              "label, forward label, a caller name spelled like the other parameter, a caller name spelled like the body's local "
+              "label, forward label, a caller name spelled like the other parameter or like the parameter itself (the caller's constants are assigned again after the last application), a caller name spelled like the body's local "
               "label, constant expression) x caller label before/after x 1-3 applications, plus families for code-block arguments "
               "and splices, 0/1-parameter macros, terminated recursion, undefined macro and missing/surplus arguments. Each program "
               "is assembled by the real assembler and compared (a) with the reference expansion that binds arguments at the call "
@@ -43,7 +43,7 @@ BODY_STMTS = {
     "nested_blk": [("block", [("call", "nn", [("b", "+", S("pa"), N(2))])]), ("for", "qf", N(0), N(1), [("call", "nn", [("b", "+", S("pa"), N(3))])])],
     "if_pb": [("if", ("b", "-", S("pb"), N(0x31)), [("data", "db", [N(0xA1)])], [("data", "db", [N(0xA2)])])],  # expansion-time use of a parameter
 }
-ARG_KINDS = ["lit", "const", "back", "fwd", "other-param", "local-name", "const-expr"]
+ARG_KINDS = ["lit", "const", "back", "fwd", "other-param", "same-param", "local-name", "const-expr"]
 
 
 def arg_expr(kind, j, variant):
@@ -58,13 +58,15 @@ def arg_expr(kind, j, variant):
         return S("fwd")
     if kind == "other-param":
         return S("pb" if j == 0 else "pa")  # the caller's own pa / pb, NOT the macro's parameter
+    if kind == "same-param":
+        return S("pa" if j == 0 else "pb")  # the caller's constant spelled exactly like the parameter it is passed for
     if kind == "local-name":
         return S("loc")  # the caller's label `loc`, not the body's local label
     return ("b", "+", S("kc"), N(1 + variant))
 
 
 def bound(tier):
-    return (("2080" if tier == "thorough" else "400") + " bodies x 49 argument-kind pairs x 2 placements of the caller's label x 1..3 applications; + code-block/splice, "
+    return (("2080" if tier == "thorough" else "400") + " bodies x 64 argument-kind pairs x 2 placements of the caller's label x 1..3 applications; + code-block/splice, "
             "0/1-parameter, recursion depth 0..6, undefined / too-few / surplus families")
 
 
@@ -128,6 +130,8 @@ def program(body_sel, kinds, loc_pos, napps):
         prog += [("label", "loc"), ("data", "db", [N(0xC1)])]
     if napps >= 3:
         prog.append(calls[2])
+    # the caller's constants are assigned AGAIN after the last application: arguments were bound where the call stands
+    prog += [("const", "pa", N(0x6A)), ("const", "pb", N(0x6B)), ("const", "kc", N(0x41))]
     return prog
 
 
@@ -164,6 +168,9 @@ def inline_twin(prog):
                 else:
                     blk.append(b)
             out.append(("block", binds + blk))
+            for b in blk:
+                if b[0] == "macro":
+                    macros[b[1]] = (b[2], b[3])  # a definition made by the inlined body is in force afterwards
             app += 1
         else:
             out.append(st)
@@ -285,6 +292,24 @@ def run_special():
     p = base + [("macro", "mr", ["x"], [("data", "db", [S("x")])]), ("org", N(ORG)), ("call", "mr", [N(1)]),
                 ("macro", "mr", ["x"], [("data", "dw", [S("x")])]), ("call", "mr", [N(2)])]
     progs.append((p, "macro-redefined", False))
+    # a macro body (or a code block it splices) that DEFINES a macro: the definition stays in force after the application
+    p = base + [("macro", "definer", [], [("macro", "made", ["x"], [("data", "db", [S("x")])])]), ("org", N(ORG)), ("call", "definer", []),
+                ("call", "made", [N(0x22)])]
+    progs.append((p, "macro-defined-by-a-macro-body", True))
+    p = base + [("macro", "made", ["x"], [("data", "db", [("b", "+", S("x"), N(0x10))])]),
+                ("macro", "definer", [], [("data", "db", [N(0x20)]), ("macro", "made", ["x"], [("data", "db", [("b", "+", S("x"), N(0x20))])])]),
+                ("org", N(ORG)), ("call", "made", [N(1)]), ("call", "definer", []), ("call", "made", [N(2)])]
+    progs.append((p, "macro-redefined-by-a-macro-body", True))
+    p = base + [("macro", "runb", ["blk"], [("splice", "blk")]), ("org", N(ORG)),
+                ("call", "runb", [("code", [("macro", "made2", ["x"], [("data", "db", [S("x")])])])]), ("call", "made2", [N(0x33)])]
+    progs.append((p, "macro-defined-by-a-spliced-block", True))
+    # a named scope inside the body: its exports belong to the application's scope, never to the caller
+    scb = [("scope", "sc", [("label", "sl"), ("data", "db", [N(1)])]), ("data", "dw", [S("sc.sl")])]
+    p = base + [("macro", "msc", [], scb), ("org", N(ORG)), ("scope", "sc", [("label", "sl"), ("data", "db", [N(9)])]), ("call", "msc", []),
+                ("data", "dw", [S("sc.sl")]), ("call", "msc", []), ("data", "dw", [S("sc.sl")])]
+    progs.append((p, "named-scope-in-body-vs-callers-scope", True))
+    p = base + [("macro", "msc", [], scb), ("org", N(ORG)), ("call", "msc", []), ("data", "dw", [S("sc.sl")])]
+    progs.append((p, "named-scope-in-body-invisible-to-caller", False))
     # a macro whose name is also a label / constant name; a parameter named like the macro itself
     p = base + [("macro", "same", ["same"], [("data", "db", [S("same")])]), ("org", N(ORG)), ("label", "samelbl"), ("call", "same", [N(7)]),
                 ("call", "same", [S("samelbl")])]
